@@ -1,7 +1,8 @@
 (* C05 — Every configuration the loader accepts runs safely on all traffic.
    Final statements only.  Definitions: Model.v (the loader as coded, with the
-   repairs fix-F-C05a / fix-F-C05b as switches) and C04/Model.v (the executor);
-   proofs: Proofs.v; concrete witnesses: Witness.v.
+   repairs fix-F-C05a / fix-F-C05b / fix-F-C05l as switches), C04/Model.v (the
+   executor) and History.v (the executor with history-dependent processors);
+   proofs: Proofs.v, Proofs2.v, HistoryProofs.v; concrete witnesses: Witness.v.
 
    Scope.  The statements are about graph shape and termination: which
    configurations [load] accepts, that everything it accepts is executed by
@@ -19,7 +20,7 @@
    nothing is true "because the fuel ran out". *)
 From Coq Require Import List ZArith Bool Lia.
 From Verif Require Import C04.Model C04.Spec C04.Proofs C04.Property.
-From Verif Require Import C05.Model C05.Proofs C05.Witness.
+From Verif Require Import C05.Model C05.Proofs C05.Proofs2 C05.History C05.HistoryProofs C05.Witness.
 Import ListNotations.
 Open Scope Z_scope.
 
@@ -92,6 +93,23 @@ Theorem C05_loader_terminates : forall cf allstarts,
 Proof. exact load_no_fuel. Qed.
 Print Assumptions C05_loader_terminates.
 
+(* the same with or without fix-F-C05l *)
+Theorem C05_loader_terminates_either : forall fresh cf allstarts,
+  load_gen fresh true allstarts cf <> LoaderFuel.
+Proof. exact load_gen_no_fuel. Qed.
+Print Assumptions C05_loader_terminates_either.
+
+(* flowBuilder.build() tries the flows that failed a second time.  Building a
+   flow being a function of the configuration alone (clean builder state: the
+   chain of flows in progress is reset per flow, the foreign root per direction
+   - fix-F-C05l), the second pass finds what the first found: the two-pass
+   procedure as coded and the single pass [build_all] give the same verdict
+   (and the same flows), for any way of building one flow. *)
+Theorem C05_retry_pass_irrelevant : forall build fcs,
+  build_two_pass build fcs = build_all_by build fcs.
+Proof. exact two_pass_is_single. Qed.
+Print Assumptions C05_retry_pass_irrelevant.
+
 (* A flow one of whose request connections is `processor -> flow <itself> at
    start` is rejected (whatever else the configuration contains). *)
 Theorem C05_self_reference_rejected : forall cf allstarts fc pre c post,
@@ -118,6 +136,27 @@ Example C05_reference_cycle_witness :
   /\ ref_path wc_config Req 1 1.
 Proof. split; [reflexivity|]. split; [reflexivity|exact wc_ref_path]. Qed.
 
+(* The first hypothesis is met by every flow of a configuration that passed the
+   structural stage (flow names are unique there) ... *)
+Theorem C05_flows_found_by_name : forall cf fc,
+  struct_ok cf = true -> In fc (cf_flows cf) -> find_flow cf (fc_name fc) = Some fc.
+Proof. exact struct_ok_find_flow. Qed.
+Print Assumptions C05_flows_found_by_name.
+
+(* ... hence, without it: a configuration ANY flow of which reaches itself
+   through flow references is rejected by the loader - at one of its three
+   stages, with an error; it is neither accepted nor does a budget run out
+   (with or without fix-F-C05l, for either start set of the cycle search). *)
+Theorem C05_reference_cycle_config_rejected : forall fresh allstarts cf fc d,
+  In fc (cf_flows cf) -> ref_path cf d (fc_name fc) (fc_name fc) ->
+  exists stage, load_gen fresh true allstarts cf = Reject stage.
+Proof. exact reference_cycle_load_rejected. Qed.
+Print Assumptions C05_reference_cycle_config_rejected.
+
+Example C05_reference_cycle_config_witness :
+  In (wc_flow 1 1 2) (cf_flows wc_config) /\ ref_path wc_config Req (fc_name (wc_flow 1 1 2)) 1.
+Proof. split; [left; reflexivity|exact wc_ref_path]. Qed.
+
 (* ---- (b) the whole transaction ----------------------------------------------- *)
 
 (* Accepted configuration, any flows selected among the loaded ones (which ones
@@ -139,6 +178,154 @@ Theorem C05_transaction_safe : forall cf fs beh s s2,
        /\ (length (fst (run_res fuel beh s sc)) <= res_bound fuel s)%nat.
 Proof. exact transaction_safe. Qed.
 Print Assumptions C05_transaction_safe.
+
+(* The same without a budget in the statement.  The budget is an artefact of
+   writing the executor as a structurally recursive function; what the property
+   says is: there is a budget n (n = [exec_fuel fs]) from which on the executor
+   gives ONE result, whatever budget it is given - that result is not "out of
+   fuel", it is actions or the error, and it has at most [req_bound n] /
+   [res_bound n] executions. *)
+Theorem C05_transaction_safe_fuel_free : forall cf fs beh s s2,
+  load cf = Accept fs ->
+  sel_from fs s -> (forall s', s2 = Some s' -> sel_from fs s') ->
+  exists n, forall fuel, (n <= fuel)%nat ->
+    (run_req fuel beh s s2 = run_req n beh s s2
+     /\ (snd (run_req fuel beh s s2) = None
+         \/ exists k, snd (run_req fuel beh s s2) = Some (NoRespNode k))
+     /\ (length (fst (run_req fuel beh s s2)) <= req_bound n s s2)%nat)
+    /\ forall sc,
+         run_res fuel beh s sc = run_res n beh s sc
+         /\ (snd (run_res fuel beh s sc) = None
+             \/ exists k, snd (run_res fuel beh s sc) = Some (NoRespNode k))
+         /\ (length (fst (run_res fuel beh s sc)) <= res_bound n s)%nat.
+Proof. exact transaction_safe_fuel_free. Qed.
+Print Assumptions C05_transaction_safe_fuel_free.
+
+(* The selection hypothesis is met by what the `txn` suite passes (and by any
+   selection made by name among the loaded flows). *)
+Theorem C05_selection_by_name_is_from : forall fs e, sel_from fs (dec_sel fs e).
+Proof. exact sel_from_dec_sel. Qed.
+Print Assumptions C05_selection_by_name_is_from.
+
+(* ---- (b') processors whose answers depend on the history ----------------------
+
+   [beh] above is a function of (flow, processor, direction): a processor that
+   runs twice in one transaction answers the same both times.  History.v
+   threads the history of the transaction (every execution so far, of every
+   flow) through the same executor and lets the answer depend on it
+   ([horacle]).  For EVERY such oracle, on every accepted configuration, from
+   some budget on: one result, actions or the error, same bounds. *)
+Theorem C05_transaction_safe_any_history : forall cf fs (hb : horacle) s s2,
+  load cf = Accept fs ->
+  sel_from fs s -> (forall s', s2 = Some s' -> sel_from fs s') ->
+  exists n, forall fuel, (n <= fuel)%nat ->
+    (hrun_req fuel hb s s2 [] = hrun_req n hb s s2 []
+     /\ (snd (hrun_req fuel hb s s2 []) = None
+         \/ exists k, snd (hrun_req fuel hb s s2 []) = Some (NoRespNode k))
+     /\ (length (fst (hrun_req fuel hb s s2 [])) <= req_bound n s s2)%nat)
+    /\ forall sc,
+         hrun_res fuel hb s sc [] = hrun_res n hb s sc []
+         /\ (snd (hrun_res fuel hb s sc []) = None
+             \/ exists k, snd (hrun_res fuel hb s sc []) = Some (NoRespNode k))
+         /\ (length (fst (hrun_res fuel hb s sc [])) <= res_bound n s)%nat.
+Proof. exact transaction_safe_any_history_from. Qed.
+Print Assumptions C05_transaction_safe_any_history.
+
+(* The executor the suites tie to the code is the instance for oracles that
+   ignore the history: same result, same executions (the history lists them
+   most recent first). *)
+Theorem C05_history_blind_is_C04 : forall fuel (beh : oracles) s s2 sc,
+  hrun_req fuel (blind beh) s s2 [] = (rev (fst (run_req fuel beh s s2)), snd (run_req fuel beh s s2))
+  /\ hrun_res fuel (blind beh) s sc [] = (rev (fst (run_res fuel beh s sc)), snd (run_res fuel beh s sc)).
+Proof. exact history_blind_is_C04. Qed.
+Print Assumptions C05_history_blind_is_C04.
+
+(* The generalisation is strict: with a processor that hits the first time it
+   runs and misses afterwards, the diamond 1 -> {2, 3} -> 4 -> {hit: 5, miss: 6}
+   is walked 1 2 4 5 3 4 6, which no history-blind oracle produces. *)
+Theorem C05_history_matters : forall (beh : oracle) fuel,
+  fst (hexec_flow 5 wh_flow Req None once_hit [])
+  <> rev (tag wh_flow Req (fst (exec_flow_impl fuel wh_flow Req None beh))).
+Proof. exact wh_not_blind. Qed.
+Print Assumptions C05_history_matters.
+
+Example C05_history_witness :
+  validate Req (freq wh_flow) = true
+  /\ map e_key (rev (fst (hexec_flow 5 wh_flow Req None once_hit []))) = [1; 2; 4; 5; 3; 4; 6]
+  /\ map e_cond (rev (fst (hexec_flow 5 wh_flow Req None once_hit []))) = [1; 1; 1; 1; 1; 2; 1].
+Proof. vm_compute. repeat split; reflexivity. Qed.
+
+(* ---- (e) what "accepted" means, in one place ------------------------------------ *)
+
+(* The validator's verdict on a direction, exactly (no budget, no search): it
+   accepts iff the direction is undefined, or has an entry point when it is a
+   request direction, has no unconnected processor, and is acyclic - every
+   connection of every processor leads to a processor of smaller rank.  It
+   rejects iff the direction is defined and one of the three fails.  (Hence
+   "rejected for circularity iff not acyclic": the repaired detector raises no
+   false alarm and misses nothing.) *)
+Theorem C05_validator_exact : forall d g,
+  (validate_dir true d g = VOk <->
+     (nodes g = []
+      \/ ((is_req d = true -> root g <> None) /\ unconnected_ok g = true
+          /\ exists rk, ranked g rk)))
+  /\ (validate_dir true d g = VBad <->
+       (nodes g <> []
+        /\ ~ ((is_req d = true -> root g <> None) /\ unconnected_ok g = true
+              /\ exists rk, ranked g rk))).
+Proof. intros. split; [apply validate_dir_exact|apply validate_dir_bad_exact]. Qed.
+Print Assumptions C05_validator_exact.
+
+(* Every direction of every flow the loader returns is acyclic (ranks below the
+   budget the executor is given) and closed: its entry point is one of its
+   processors and so is the target of every connection - the executor never
+   meets a processor the direction does not have (C04's executor treats such a
+   key as a processor without connections; C04/Model.v relies on "the root of a
+   direction is one of its nodes"). *)
+Theorem C05_accepted_graphs : forall cf fs f d,
+  load cf = Accept fs -> In f fs ->
+  ranked (gdir f d) (rank_of (gdir f d))
+  /\ (forall k, (rank_of (gdir f d) k < exec_fuel fs)%nat)
+  /\ (forall r, root (gdir f d) = Some r -> has_node (gdir f d) r = true)
+  /\ (forall n c t, In n (nodes (gdir f d)) -> In (c, Some t) (snd n) -> has_node (gdir f d) t = true).
+Proof.
+  intros cf fs f d L I. destruct (load_accepted_ranked cf fs f d L I) as [R B].
+  destruct (load_closed cf fs f d L I) as [C1 C2]. repeat split; assumption.
+Qed.
+Print Assumptions C05_accepted_graphs.
+
+Example C05_accepted_graphs_witness :
+  In wg_flow1 wg_flows /\ root (fres wg_flow1) = Some 4 /\ has_node (fres wg_flow1) 4 = true.
+Proof. vm_compute. repeat split. left. reflexivity. Qed.
+
+(* F-C05l.  Without the repair the loader's graphs need not be closed: what it
+   would have to satisfy ... *)
+Definition C05_stale_loader_closed : Prop :=
+  forall cf fs f d r, load_stale cf = Accept fs -> In f fs ->
+    root (gdir f d) = Some r -> has_node (gdir f d) r = true.
+
+(* ... is refuted by a flow that names, as its own stream entry, a processor an
+   incorporated flow brought in: the entry is filed as foreign root, nothing
+   consumes it, it survives into the response direction and becomes the entry
+   point there - of a processor the response direction does not have.  (In the
+   code the entry point is then a pointer into the REQUEST graph: a response
+   walks request-side processors.  And the value survives into the build of the
+   next flow as well, so that whether a third flow is accepted depends on Go's
+   map iteration order: harness family `foreign-root`.) *)
+Theorem C05_stale_loader_refuted : ~ C05_stale_loader_closed.
+Proof.
+  intros H. specialize (H wf_config wf_flows wf_flow1 Res 5).
+  assert (X : has_node (gdir wf_flow1 Res) 5 = true).
+  { apply H; [reflexivity|left; reflexivity|reflexivity]. }
+  vm_compute in X. discriminate.
+Qed.
+Print Assumptions C05_stale_loader_refuted.
+
+(* the repaired loader rejects that configuration ("foreign root node not found") *)
+Example C05_stale_witness_rejected :
+  load wf_config = Reject 3 /\ verdict_code (load_stale wf_config) = 0
+  /\ fres wf_flow1 = {| root := Some 5; nodes := [(3, [(1, None)])] |}.
+Proof. vm_compute. repeat split; reflexivity. Qed.
 
 (* ---- the pinned tree: why the two repairs are needed ------------------------- *)
 
